@@ -983,13 +983,18 @@ def py_spec(case, obs):
         if r["kinds"] != wantk:
             return (f"rendering {tag}: members are wrapped as {r['kinds']}, the class denotes {wantk} "
                     "(option / nested group / optional nested group)")
+    first = None
     for r in obs["rends"][1:]:
         tag = f"{r['style']}/{r['layout']}/{r['scope']}"
-        for argv, a, b, da, db in zip(["<the registered options>"] + case["argvs"], ref["outs"], r["outs"], ref["digest"], r["digest"]):
+        for i, (argv, a, b, da, db) in enumerate(zip(["<the registered options>"] + case["argvs"], ref["outs"], r["outs"],
+                                                     ref["digest"], r["digest"])):
             if da != db:
-                return (f"argv {argv}: rendering {tag} ended with {b}, rendering typing/flat/module with {a}"
-                        + (" (different values)" if a == b else ""))
-    return None
+                msg = (f"argv {argv}: rendering {tag} ended with {b}, rendering typing/flat/module with {a}"
+                       + (" (different values)" if a == b else ""))
+                if _pair_evidence(case, obs, r, i) is None:
+                    return msg          # a deviation that no listed finding explains is named first
+                first = first or msg
+    return first
 
 
 def _canon_rty(r):
@@ -1076,41 +1081,42 @@ def _nested_union_texts(c, top=True):
     return out
 
 
+def _pair_evidence(case, obs, r, i):
+    """which LISTED defect explains that rendering r deviates from the reference at outs[i] (None: none of them)"""
+    ref = obs["rends"][0]
+    flat = [f for f in case["flat"] if f["kind"] != "classvar" and f["init"] and f["cmd"]]
+    labels = [None] + case["argvs"]
+    sp = case["future_spelling"] if r["style"] == "future" else r["style"]
+    a, b = ref["vals"][i], r["vals"][i]
+    # where today's code DOES normalise (a string annotation whose top level is a union, not wrapped in InitVar) the
+    # nested bar becomes typing.Union and the member works: a failure there is another defect
+    nested = [t for f in flat for t in _nested_union_texts(f["ty"])
+              if not (r["style"] == "future" and f["ty"][0] == "union" and f["kind"] != "initvar")]
+    # (2) a bar nested inside a builtin generic is never normalised: argparse refuses the raw types.UnionType as
+    #     type= ("int | str is not callable") when the argument is added, whatever the command line
+    msg = b[2] if b[0] == "raise" and len(b) > 2 else ""
+    if sp == "pep604" and b[0] == "raise" and b[1] == "ValueError" and msg.endswith(" is not callable") \
+            and msg[: -len(" is not callable")] in nested:
+        return "nested-bar-uniontype-not-callable"
+    # (1) list of fixed tuples written with builtin generics: argparse gets the raw alias `tuple[int, str]` as type=,
+    #     which is callable (tuple(token)), so every token becomes a 1-tuple of str; typing.Tuple[..] is not: exit 2
+    if sp != "typing" and i and a[0] == "exit" and a[1] == 2 and b[0] == "ok":
+        for f in flat:
+            toks = _option_tokens(labels[i], f["name"])
+            if f["ty"][0] == "list" and f["ty"][1][0] == "tuple" and toks and _field_value(b[1], f["name"]) == \
+                    {"t": "list", "v": [{"t": "tuple", "v": [{"t": "str", "v": t}]} for t in toks]}:
+                return "list-of-tuple-tokens-become-1-tuples"
+    return None
+
+
 def _known_evidence(case, obs, spellings, pairs, setup_dev):
     """The observations that single out each LISTED defect (everything else keeps the symptom signature, which is
     never listed).  EVERY deviating (rendering, argv) pair must be explained by one of them, each pair on its own
     evidence; existential in the fields, so that the shrinker can drop the other fields / command lines."""
     if setup_dev or not pairs:
         return None
-    ref = obs["rends"][0]
-    flat = [f for f in case["flat"] if f["kind"] != "classvar" and f["init"] and f["cmd"]]
-    labels = [None] + case["argvs"]
-    nested = [t for f in flat for t in _nested_union_texts(f["ty"])]
-    found = set()
-    for r, i in pairs:
-        sp = case["future_spelling"] if r["style"] == "future" else r["style"]
-        a, b = ref["vals"][i], r["vals"][i]
-        # (2) a bar nested inside a builtin generic is never normalised: argparse refuses the raw types.UnionType as
-        #     type= ("int | str is not callable") when the argument is added, whatever the command line
-        msg = b[2] if b[0] == "raise" and len(b) > 2 else ""
-        if sp == "pep604" and b[0] == "raise" and b[1] == "ValueError" and msg.endswith(" is not callable") \
-                and msg[: -len(" is not callable")] in nested:
-            found.add("nested-bar-uniontype-not-callable")
-            continue
-        # (1) list of fixed tuples written with builtin generics: argparse gets the raw alias `tuple[int, str]` as type=,
-        #     which is callable (tuple(token)), so every token becomes a 1-tuple of str; typing.Tuple[..] is not: exit 2
-        hit = False
-        if sp != "typing" and i and a[0] == "exit" and a[1] == 2 and b[0] == "ok":
-            for f in flat:
-                toks = _option_tokens(labels[i], f["name"])
-                if f["ty"][0] == "list" and f["ty"][1][0] == "tuple" and toks and _field_value(b[1], f["name"]) == \
-                        {"t": "list", "v": [{"t": "tuple", "v": [{"t": "str", "v": t}]} for t in toks]}:
-                    hit = True
-        if hit:
-            found.add("list-of-tuple-tokens-become-1-tuples")
-            continue
-        return None
-    return sorted(found)[0]
+    found = [_pair_evidence(case, obs, r, i) for r, i in pairs]
+    return None if None in found else sorted(found)[0]
 
 
 # ---- the rewriter as it stands, pinned: the listed rewriter findings are exactly the places where THIS algorithm
